@@ -349,10 +349,14 @@ def render(x):
         if inner == "ParameterNodeAtInstant":
             return ["node", sorted([n, render(x[n])] for n in x)]      # through the wrapper
         vector = x.vector                                                  # through the wrapper's __getattr__
+        if vector.ndim == 0:
+            return render_record(vector[()], vector.dtype)
         return ["rows", [render_record(r, vector.dtype) for r in vector]]
     if name == "ParameterNodeAtInstant":
         return ["node", sorted([n, render(x[n])] for n in x)]
     if name in ("VectorialParameterNodeAtInstant", "VectorialAsofDateParameterNodeAtInstant"):
+        if x.vector.ndim == 0:
+            return render_record(x.vector[()], x.vector.dtype)
         return ["rows", [render_record(r, x.vector.dtype) for r in x.vector]]
     if name in SCALE_KIND:
         k = SCALE_KIND[name]
@@ -715,14 +719,15 @@ def gen_group(rng, pool, depth):
     """A group meant for fancy indexing: [depth] levels of nodes over leaves."""
     def level(d, names_by_level):
         if d == 0:
-            return gen_leaf(rng, pool, defined=rng.random() < 0.85)
+            return gen_leaf(rng, pool, defined=rng.random() < (0.8 if depth == 1 else 0.97))
         return {"t": "node", "layout": "file",
                 "children": [[n, level(d - 1, names_by_level)] for n in names_by_level[d - 1]]}
     names_by_level = [rng.sample(FNAMES, rng.choice([1, 2, 2, 3])) for _ in range(depth - 1)]
     names_by_level.append(rng.sample(ZNAMES, rng.choice([1, 2, 3, 3, 4])))
     g = level(depth, names_by_level)
+    g["group"] = True
     r = rng.random()
-    if r < 0.22 and g["children"]:                       # break the homogeneity somewhere
+    if r < 0.15 and g["children"]:                       # break the homogeneity somewhere
         victim = rng.choice(g["children"])
         how = rng.choice(["leaf", "scale", "drop", "extra", "empty"])
         if how == "leaf" or victim[1]["t"] == "param":
@@ -763,11 +768,11 @@ def gen_asof(rng, pool):
         children.append(["zz", val()])                       # a member without a date: NaT
     elif r < 0.30:
         children = children[:1]                              # no dated member at all
-    return {"t": "node", "layout": "file", "asof": True, "children": children}
+    return {"t": "node", "layout": rng.choice(["file", "file", "dir"]), "asof": True, "children": children}
 
 
 def gen_node(rng, pool, depth):
-    names = rng.sample(NAMES, rng.choice([2, 3, 4, 5]) if depth == 0 else rng.choice([0, 1, 2, 3]))
+    names = rng.sample(NAMES, rng.choice([2, 3, 4, 5]) if depth == 0 else rng.choice([0, 1, 1, 2, 2, 3, 3]))
     children = []
     for n in names:
         r = rng.random()
@@ -844,7 +849,7 @@ def group_depth(t):
 def gen_tail(rng, sub):
     """A tail for a read that ends on [sub]."""
     if sub["t"] != "node" or rng.random() < 0.25:
-        if rng.random() < 0.9 or sub["t"] == "node":
+        if rng.random() < 0.97 or sub["t"] == "node":
             return {"k": "whole"}
         return {"k": "vec", "keys": ["z1"], "kind": "str", "universe": [], "steps": []}   # a leaf / scale indexed
     names = [n for n, _ in sub["children"]]
@@ -898,7 +903,8 @@ def gen_read(rng, tree, hot, dates, route=None, path=None, date=None):
         if r < 0.45 and leaves:
             path, sub = rng.choice(leaves)
         elif r < 0.85 and groups:
-            path, sub = rng.choice(groups)
+            marked = [(p, s) for p, s in groups if s.get("group") or s.get("asof")]
+            path, sub = rng.choice(marked if marked and rng.random() < 0.9 else groups)
         elif r < 0.90:
             path, sub = [], tree
         elif r < 0.96:
